@@ -20,6 +20,7 @@ import (
 	"os"
 	"os/exec"
 	"path"
+	"path/filepath"
 	"runtime"
 	"runtime/debug"
 	"sort"
@@ -838,6 +839,41 @@ func classesOf(vs []violation) string {
 	return strings.Join(cs, "|")
 }
 
+type concViolation struct {
+	Class   string          `json:"class"`
+	Body    json.RawMessage `json:"body"`
+	Choices []int           `json:"choices"`
+	Detail  string          `json:"detail"`
+}
+
+type concOut struct {
+	Bodies      int             `json:"bodies"`
+	Executions  int             `json:"executions"`
+	Pruned      int             `json:"pruned"`
+	States      int             `json:"states"`
+	Transitions int             `json:"transitions"`
+	Incomplete  int             `json:"incomplete"`
+	Outcomes    map[string]int  `json:"distinct_schedules_of_file_operations_per_body"`
+	Violations  []concViolation `json:"violations"`
+}
+
+// runConcurrent runs the concurrent-readers tier (harness/c29s, built by the driver against the rewritten cache client).
+func runConcurrent(args ...string) *concOut {
+	bin := os.Getenv("VERIF_AUX_C29S")
+	if bin == "" {
+		lib.Fatal("VERIF_AUX_C29S not set (the driver builds the concurrent-readers tier)")
+	}
+	cmd := exec.Command(bin, args...)
+	cmd.Env = append(os.Environ(), "GOMAXPROCS=1", "GOGC=off", "GOMEMLIMIT=2GiB")
+	cmd.Stderr = os.Stderr
+	b, err := cmd.Output()
+	var co concOut
+	if err != nil || json.Unmarshal(b, &co) != nil {
+		lib.Fatal("concurrent-readers tier failed: %v\n%s", err, b)
+	}
+	return &co
+}
+
 func main() {
 	if len(os.Args) > 1 && os.Args[1] == "--c29-worker" {
 		workerMain()
@@ -849,6 +885,19 @@ func main() {
 		var w witness
 		lib.LoadReplay(r.Replay, &w)
 		want := replayClass(r.Replay)
+		if strings.HasPrefix(want, "concurrent-readers:") {
+			var v concViolation
+			lib.LoadReplay(r.Replay, &v)
+			tmp := filepath.Join(os.TempDir(), fmt.Sprintf("c29-replay-%d.json", os.Getpid()))
+			b, _ := json.Marshal(v)
+			os.WriteFile(tmp, b, 0644)
+			co := runConcurrent("--replay", tmp)
+			os.Remove(tmp)
+			for _, cv := range co.Violations {
+				r.Violate(cv.Class, cv, "[concurrent-readers tier] "+cv.Detail)
+			}
+			r.Finish(lib.Coverage{Evaluations: 1, DistinctNontrivial: 1, Rule: "replay", Samples: []any{v}, Exhaustive: true})
+		}
 		report := func(class, detail string) {
 			if want == "" || class == want { // only the class this artefact was written for (others have their own artefacts)
 				r.Violate(class, w, detail)
@@ -874,6 +923,19 @@ func main() {
 			}
 		}
 		r.Finish(lib.Coverage{Evaluations: 1, DistinctNontrivial: 1, Rule: "replay", Samples: []any{w}, Exhaustive: true})
+	}
+
+	// Concurrent-readers tier: the view over the real blob cache client under every interleaving of 2-3 readers.
+	cargs := []string{"--budget", "2m"}
+	if !r.Quick() {
+		cargs = []string{"--budget", "10m", "--thorough"}
+	}
+	conc := runConcurrent(cargs...)
+	for _, cv := range conc.Violations {
+		r.Violate(cv.Class, cv, "[concurrent-readers tier] "+cv.Detail)
+	}
+	if conc.Incomplete > 0 {
+		r.Capped = true
 	}
 
 	type space struct {
@@ -1000,7 +1062,11 @@ func main() {
 		Rule:               "every Tree with exactly n nodes for n=0..3 (thorough 0..4) over files (2 contents), symlinks (9 targets: sibling names, a/a, ../a, .., ., /a, dangling zz) and directories nested to depth 2 (empty ones included), names assigned a,ab,c,d,e by position; plus n=4 (thorough also n=5) over the reduced alphabet (1 content, targets a, ab, ../a, /a); thorough also n=5 over 1 content x 7 targets, and views rooted at a working directory; non-trivial = the tree has a symlink or a subdirectory",
 		Samples:            samples.List(),
 		Exhaustive:         !r.Capped,
-		Extra: map[string]any{"trees_with_symlink_loop": loopTrees, "loop_trees_opened_in_subprocess": loopProbed,
+		States:             conc.States,
+		Transitions:        conc.Transitions,
+		Extra: map[string]any{"concurrent_readers_tier": map[string]any{"bodies": conc.Bodies, "executions": conc.Executions, "pruned_by_state_key": conc.Pruned,
+			"states": conc.States, "transitions": conc.Transitions, "explorations_cut_by_budget": conc.Incomplete, "preemption_bound": "none (all interleavings)",
+			"distinct_file_operation_orders_per_body": conc.Outcomes}, "trees_with_symlink_loop": loopTrees, "loop_trees_opened_in_subprocess": loopProbed,
 			"loop_trees_open_skipped_after_crash_budget": loopSkipped, "worker_deaths": crashes},
 	})
 }
